@@ -136,7 +136,7 @@ pub fn gen(tier: &str, seed: u64) -> Gen {
     }
     fams.push(("&&, ||, ?: with every kind of skipped or evaluated operand (effectful, unset, failing, ill-typed, math function)".to_string(), n, true));
     // malformed text in a skipped operand: still an error of the whole expression
-    let bad = ["[rec 9", "\"abc", "{abc", "$x(", "1 +", "(1", "abs(", "1 ? 2", "@"];
+    let bad = ["[rec 9", "\"abc", "{abc", "$x(", "1 +", "(1", "abs(", "1 ? 2", "@", "[rec 9 \"x\"y]", "[rec 9 {x}y]", "[rec 9 {x]", "[rec 9 \"x]", "[rec 9 $x(]", "\"a\"b", "{a}b"];
     let mut m = 0;
     for b in &bad {
         for (op, lv) in &[("&&", "0"), ("||", "1")] {
